@@ -312,6 +312,11 @@ func (ctx Ctx) typeDecl(doc *ast.CommentGroup, spec *ast.TypeSpec) coq.Decl {
 		return ty
 	default:
 		if spec.Assign == 0 {
+			// a defined type over a struct type has no descriptor of its own:
+			// literals and field accesses of it would use a ty as a descriptor
+			if _, isStruct := ctx.typeOf(spec.Type).Underlying().(*types.Struct); isStruct {
+				ctx.unsupported(spec, "defined type %s over a struct type (declare the struct directly or use an alias)", spec.Name.Name)
+			}
 			return coq.TypeDef{
 				Name: spec.Name.Name,
 				Type: ctx.coqType(spec.Type),
